@@ -50,6 +50,29 @@ def table_builders_only_at_import(src, check):
                             check(f"static/table-builder-called-at-run-time/{f}:{getattr(fn, 'name', 'lambda')}", False, f"line {node.lineno}")
 
 
+def registration_only_by_the_user(src, check):
+    """the allow-listed writers of global registries (register_awkward / register_numba) are *entry points for the user*: no function of the
+    library may call them (an operation that registers as a side effect leaves a trace in awkward.behavior / the registration flag)"""
+    n = 0
+    for dp, dn, fns in os.walk(src):
+        for f in sorted(fns):
+            if not f.endswith(".py") or f.startswith("_version"):
+                continue
+            rel = os.path.relpath(os.path.join(dp, f), os.path.dirname(src))
+            if rel.startswith(("vector/backends/_numba", "vector/backends/numba_")):
+                continue
+            tree = ast.parse(open(os.path.join(dp, f)).read())
+            for fn in ast.walk(tree):
+                if isinstance(fn, (ast.FunctionDef, ast.AsyncFunctionDef, ast.Lambda)) and getattr(fn, "name", "") not in REGISTRATION:
+                    for node in ast.walk(fn):
+                        if isinstance(node, ast.Call):
+                            nm = node.func.id if isinstance(node.func, ast.Name) else (node.func.attr if isinstance(node.func, ast.Attribute) else None)
+                            if nm in REGISTRATION:
+                                n += 1
+                                check(f"static/registration-called-by-a-library-function/{rel}:{getattr(fn, 'name', 'lambda')}", False, dict(line=node.lineno, text=ast.unparse(node)[:80]))
+    return n
+
+
 def shared_instance_state(src, sites, check):
     """Purity clause behind thread determinism: an operation must not write state that outlives the call.  Beyond module state (above), that is
     the instance state of helper objects that are *shared* between calls: a class whose instances are created at module level or handed out by
@@ -214,6 +237,14 @@ def runtime_contract(F):
         plain = ak.Array([{"x": 1.0, "y": 2.0}], behavior=ak.behavior)
         calls += [lambda: a4.unit(), lambda: a4 + a4, lambda: a4.boost_p4(o4), lambda: a4[0, 0].rotateZ(0.2), lambda: vector.zip({"x": [1.0], "y": [2.0]}), lambda: a4.add(o2),
                   lambda: vector.Array(plain), lambda: vector.Array(ak.Array([{"x": 1.0, "y": 2.0}], behavior=dict(ak.behavior))), lambda: ak.sum(a4, axis=1), lambda: vector.zip({"x": [1.0]})]
+    import pickle
+    # serialisation / copying of every backend's vectors (returning or raising) leaves no trace either
+    subjects = [o2, o4, n4] + ([a4, a4[0, 0], vector.zip({"px": [1.0], "py": [2.0], "pz": [0.5], "M": [1.0]})] if ak is not None else [])
+    for sub in subjects:
+        calls += [lambda sub=sub: pickle.loads(pickle.dumps(sub)), lambda sub=sub: copy.copy(sub), lambda sub=sub: copy.deepcopy(sub), lambda sub=sub: repr(sub), lambda sub=sub: str(sub)]
+        calls += [lambda sub=sub, pr=pr: pickle.loads(pickle.dumps(sub, protocol=pr)) for pr in (2, pickle.HIGHEST_PROTOCOL)]
+    if ak is not None:
+        calls += [lambda: ak.to_list(a4), lambda: ak.from_buffers(*ak.to_buffers(a4)), lambda: ak.to_numpy(a4[0]), lambda: ak.copy(a4), lambda: ak.concatenate([a4, a4])]
     settings = [dict(all="warn"), dict(all="raise", under="ignore"), dict(divide="ignore", invalid="call")]
     for si, st in enumerate(settings):
         old = np.seterr(**{k: v for k, v in st.items()})
@@ -277,6 +308,8 @@ def main(argv):
     F.n += 1       # the table-builder clause itself
     shared = shared_instance_state(src, sites, lambda oid, ok, d=None: F.check("C20", oid, ok, d))
     F.n += 1       # the shared-instance clause itself
+    registration_only_by_the_user(src, lambda oid, ok, d=None: F.check("C20", oid, ok, d))
+    F.n += 1       # the registration clause itself
     n_static = F.n
     for n_, bad_ in C.pool_map(_runtime_worker, [0, 1, 2, 3]):
         F.n += n_
@@ -338,6 +371,14 @@ def replay(prop, rp, path):
         if "/shared-instance-state/" in oid:
             got = []
             shared_instance_state(src, sites, lambda o, ok, d=None: got.append((f"C20/{o}", d)))
+            still = [g for g in got if g[0] == oid]
+            if still:
+                print("still flagged:", still[:2])
+                print(f"VIOLATION property={prop} replay={path} no-failing-input-found")
+                return 1
+        if "/registration-called-by-a-library-function/" in oid:
+            got = []
+            registration_only_by_the_user(src, lambda o, ok, d=None: got.append((f"C20/{o}", d)))
             still = [g for g in got if g[0] == oid]
             if still:
                 print("still flagged:", still[:2])
